@@ -47,6 +47,25 @@ type c18Cfg struct {
 	RespReject  bool      `json:"resp_reject"`
 	Mime        []string  `json:"mime"`
 	Rules       []c18Rule `json:"rules"`
+	// CtlResp: a SecAction, first rule of phase CtlRespPhase (1..3), switches response-body inspection for the
+	// transaction: "access=On" | "access=Off" (ctl:responseBodyAccess) | "force" (ctl:forceResponseBodyVariable=On).
+	CtlResp      string `json:"ctl_resp,omitempty"`
+	CtlRespPhase int    `json:"ctl_resp_phase,omitempty"`
+}
+
+// c18Buffered: is the response body of this exchange held back and inspected? (only asked once phases 1-3 have
+// passed without blocking, so a configured ctl has taken effect)
+func c18Buffered(c *c18Cfg, contentType string) bool {
+	access, force := c.RespAccess, false
+	switch c.CtlResp {
+	case "access=On":
+		access = true
+	case "access=Off":
+		access = false
+	case "force":
+		force = true
+	}
+	return access && (force || c18MimeIn(contentType, c.Mime))
 }
 
 func onOff(b bool) string {
@@ -76,6 +95,12 @@ func (c *c18Cfg) Render() string {
 	fmt.Fprintf(&sb, "SecResponseBodyLimit %d\n", c.RespLimit)
 	fmt.Fprintf(&sb, "SecResponseBodyLimitAction %s\n", limitAction(c.RespReject))
 	sb.WriteString(`SecRule REQUEST_HEADERS:Content-Type "@beginsWith application/json" "id:9,phase:1,pass,nolog,ctl:requestBodyProcessor=JSON"` + "\n")
+	switch c.CtlResp {
+	case "access=On", "access=Off":
+		fmt.Fprintf(&sb, "SecAction \"id:7,phase:%d,pass,nolog,ctl:responseBodyAccess=%s\"\n", c.CtlRespPhase, strings.TrimPrefix(c.CtlResp, "access="))
+	case "force":
+		fmt.Fprintf(&sb, "SecAction \"id:7,phase:%d,pass,nolog,ctl:forceResponseBodyVariable=On\"\n", c.CtlRespPhase)
+	}
 	for _, r := range c.Rules {
 		var target, op string
 		switch r.Steer {
@@ -160,7 +185,7 @@ type c18Params struct {
 func init() {
 	fw.Register(&fw.Prop{
 		ID: "C18", Level: "exploration",
-		Rule: "triples (configuration, request, handler script): configurations vary body access, MIME list, small request/response limits (with in-memory limit), Reject/ProcessPartial and up to four disruptive rules (one per phase 1-4) steerable from a request header, the request body, a response header or the response body; requests vary method, content type, Content-Length vs chunked and body sizes below/at/above both request limits; scripts are sequences of header edits, WriteHeader (1xx, 2xx, 204, 304, 4xx, 5xx or none), Write chunks, Flush, ReadFrom and request-body reads (full/partial/none). Each triple is served by a bare handler and by the same handler behind coraza's WrapHandler on real httptest servers; pass-through is judged differentially (status, end-to-end headers, body, 1xx list, bytes the handler read), blocking by a model steered by the generated rule. A triple is non-trivial when it passes through with at least one body byte in either direction, or when it is blocked and the bare response is observably different from the expected block response; distinct by hash of (configuration, request, script).",
+		Rule: "triples (configuration, request, handler script): configurations vary body access, MIME list, small request/response limits (with in-memory limit), Reject/ProcessPartial and up to four disruptive rules (one per phase 1-4) steerable from a request header, the request body, a response header or the response body, and in 30 % of them a ctl (first rule of phase 1, 2 or 3) that switches response-body inspection for the transaction (ctl:responseBodyAccess=On/Off, ctl:forceResponseBodyVariable=On); requests vary method, content type, Content-Length vs chunked and body sizes below/at/above both request limits; scripts are sequences of header edits, WriteHeader (1xx, 2xx, 204, 304, 4xx, 5xx or none), Write chunks, Flush, ReadFrom and request-body reads (full/partial/none). Each triple is served by a bare handler and by the same handler behind coraza's WrapHandler on real httptest servers; pass-through is judged differentially (status, end-to-end headers, body, 1xx list, bytes the handler read), blocking by a model steered by the generated rule. A triple is non-trivial when it passes through with at least one body byte in either direction, or when it is blocked and the bare response is observably different from the expected block response; distinct by hash of (configuration, request, script).",
 		Assumptions: []string{
 			"the bare net/http server is the oracle for pass-through; framing/hop headers (Content-Length, Transfer-Encoding, Date, Connection) are masked, and Content-Type is masked when the handler did not set one (net/http sniffing depends on write chunking)",
 			"whether a steered rule matches is computed from the generated rule and the generated request/script (bytes inside the processed prefix of a body), not read from the transaction",
